@@ -73,6 +73,19 @@ type dataWriter struct {
 	reader  *buffer.Reader
 	closed  bool
 	written uint64
+	copy    *CopyReader
+}
+
+// copyError returns the error which aborted a copy-in operation started
+// through the given data writer. A nil error is returned if no copy-in
+// operation has been started or if it has not been aborted.
+func copyError(writer DataWriter) error {
+	dw, ok := writer.(*dataWriter)
+	if !ok || dw.copy == nil {
+		return nil
+	}
+
+	return dw.copy.err
 }
 
 func (writer *dataWriter) Columns() Columns {
@@ -112,7 +125,8 @@ func (writer *dataWriter) CopyIn(format FormatCode) (*CopyReader, error) {
 		return nil, err
 	}
 
-	return NewCopyReader(writer.reader, writer.client, writer.columns), nil
+	writer.copy = NewCopyReader(writer.reader, writer.client, writer.columns)
+	return writer.copy, nil
 }
 
 func (writer *dataWriter) Empty() error {
